@@ -161,6 +161,8 @@ func (jd *JarDigest) shouldDeflate() bool {
 }
 
 func keepFile(name string) bool {
+	// signature-related names are not case sensitive; the verifier upper-cases them too
+	name = strings.ToUpper(name)
 	if name == metaInf {
 		// META-INF/ itself gets updated
 		return false
